@@ -73,6 +73,12 @@ var progSpecs = []progSpec{
 	{"container/processors", "validateAwarePostProcessors", "PostProcessProperties", "validate_PostProcessProperties"},
 	{"component_definition", "Meta", "scanFields", "meta_scanFields"},
 	{"util/reflectx", "", "ForEachFieldV2", "reflectx_ForEachFieldV2"},
+	{"container", "", "Or", "opt_Or"},
+	{"container", "", "And", "opt_And"},
+	{"container", "", "Type", "opt_Type"},
+	{"container", "", "InterfaceType", "opt_InterfaceType"},
+	{"container", "", "FuncName", "opt_FuncName"},
+	{"container", "", "FuncNameAndResult", "opt_FuncNameAndResult"},
 }
 
 // conversions whose single argument is passed through unchanged
@@ -603,6 +609,16 @@ func progOf(repo string, sp progSpec) string {
 	}
 	params := t.names(fd.Type.Params)
 	body := t.block(fd.Body.List)
+	// a constructor of a function value — `func F(a…) T { return func(m…) R { body } }` — is translated as the CURRIED
+	// function: parameters a… then m…, body = the literal's body (F(a…)(m…) evaluates exactly that, the outer call does nothing else)
+	if len(fd.Body.List) == 1 {
+		if rs, ok := fd.Body.List[0].(*ast.ReturnStmt); ok && len(rs.Results) == 1 {
+			if fl, ok := rs.Results[0].(*ast.FuncLit); ok {
+				params = append(params, t.names(fl.Type.Params)...)
+				body = t.block(fl.Body.List)
+			}
+		}
+	}
 	// named results are variables initialised to their zero values
 	if fd.Type.Results != nil {
 		var pre []string
